@@ -178,6 +178,7 @@ fn faults_s(f: &[Option<u8>]) -> String {
 }
 
 impl MakeOp {
+    pub fn real_pub(&self) -> make_credential::Request { self.real(Some(hmac_input())) }
     pub fn enc(&self) -> String {
         let ext = match &self.ext { None => "N".to_string(), Some((hs, mc, prf)) => format!("hs:{}/mc:{}/prf:{}", hs.map(|b| (b as u8).to_string()).unwrap_or("N".into()), *mc as u8, prfi_s(prf)) };
         format!("{} {} {} {} {} {} {}{}{}{}", hexf(&self.cdh), hexf(self.rp.as_bytes()), hexf(&self.user),
@@ -198,6 +199,7 @@ impl MakeOp {
     }
 }
 impl GetOp {
+    pub fn real_pub(&self) -> get_assertion::Request { self.real(Some(hmac_input())) }
     pub fn enc(&self) -> String {
         let ext = match &self.ext { None => "N".to_string(), Some((hs, prf)) => format!("hs:{}/prf:{}", *hs as u8, prfi_s(prf)) };
         format!("{} {} {} {} {}{}{}{}", hexf(self.rp.as_bytes()), hexf(&self.cdh), ids_s(&self.allow, &self.unk), ext, self.rk as u8, self.up as u8, self.uv as u8, self.pin as u8)
